@@ -260,6 +260,10 @@ func (w *World) tamperParams(m *MsgSpec, sp *SPNode, s *Sent, form url.Values, b
 		case "b64_flip":
 			form.Set("SAMLRequest", flipB64Char(form.Get("SAMLRequest"), tp.A))
 			w.fire("tamper_b64_flip")
+		case "b64_garbage":
+			// the value is a complete base64 text followed by something that is not
+			form.Set("SAMLRequest", form.Get("SAMLRequest")+tp.S)
+			w.fire("tamper_b64_garbage")
 		case "double_encode":
 			// the value is percent-encoded twice on the wire: after the one decoding a form parser applies it still carries escapes
 			v := form.Get(tp.S)
@@ -423,6 +427,31 @@ func (w *World) tamperRawQuery(m *MsgSpec, sp *SPNode, s *Sent, q string) string
 					dec, _ := pctDecode(ps[i].RawVal)
 					ps[i].RawVal = pctEncode(flipB64Char(dec, tp.A), m.Style.Enc)
 					w.fire("tamper_b64_flip")
+				}
+			}
+		case "b64_garbage":
+			for i := range ps {
+				if ps[i].Key == "SAMLRequest" {
+					dec, _ := pctDecode(ps[i].RawVal)
+					ps[i].RawVal = pctEncode(dec+tp.S, m.Style.Enc)
+					w.fire("tamper_b64_garbage")
+				}
+			}
+		case "deflate_cut":
+			// the DEFLATE stream ends early — after the bytes that hold the complete document (padded with a trailing comment), so a
+			// reader that stops at the end of the root element never notices
+			for i := range ps {
+				if ps[i].Key == "SAMLRequest" && s.XML != "" {
+					lvl := 9
+					if tp.B == 1 {
+						lvl = 0 // stored blocks
+					}
+					raw := deflateRaw([]byte(s.XML+"\n<!-- "+strings.Repeat("padding ", 40)+"-->\n"), lvl)
+					if n := mod(tp.A, 16) + 1; len(raw) > n+8 {
+						raw = raw[:len(raw)-n]
+					}
+					ps[i].RawVal = pctEncode(base64.StdEncoding.EncodeToString(raw), m.Style.Enc)
+					w.fire("tamper_deflate_cut")
 				}
 			}
 		case "dup_param":
